@@ -2097,10 +2097,21 @@ export class ObjectRuntype extends BaseRuntype {
       const valueSchema = value.schema(ctx);
       popPath(ctx);
 
+      const declared = Object.keys(this.properties);
+      if (declared.length === 0) {
+        return {
+          type: "object",
+          additionalProperties: valueSchema,
+          propertyNames: keySchema,
+        };
+      }
+      // the index signature constrains the other keys only: declared properties are neither
+      // "additional" nor subject to the key type
       return {
         type: "object",
+        properties: Object.fromEntries(declared.map((k) => [k, true])),
         additionalProperties: valueSchema,
-        propertyNames: keySchema,
+        propertyNames: { anyOf: [keySchema, { enum: declared }] },
       };
     });
 
